@@ -69,6 +69,10 @@ SQL_EXPRS = [
     "(\"s\" LIKE \"u\" || '%') = 1", "1 = (\"s\" NOT LIKE '%' || \"u\")", "(\"s\" LIKE '%' || \"u\" || '%') = \"f\"",
     '(INSTR("s", "u") - 1) + 1 = "a"', 'SUBSTR("s", ("a" + 1), "b") = "u"', '("a" = 1) = ("b" = 2)', '"f" = ("a" = 1)',
     'NOT ("a" = 1 AND NOT ("b" IS NULL))', '"f" <> 1', '"a" IN (1, 2)',
+    # rounding of exact fractions (halves / quarters, negative midpoints)
+    'ROUND("a" / (2 + 0.0))', 'ROUND("a" * 0.5)', 'ROUND("a" / 2.0, 0)', 'FLOOR("a" / 2.0)', 'CEIL("a" / 2.0)', 'CEILING("a" * 0.25)',
+    'TRUNC("a" / 2.0 + 0.5)', 'ROUND("a" / 4.0) = "b"', 'FLOOR("a" / ("b" + 0.0))', 'ROUND("a" / ("b" + 0.0))', 'ROUND("a")', '"a" / 2e0 > 2',
+    'FLOOR("a" + 0.5) < "b"', 'ROUND("a" / 2.0 - 0.5)',
     # number / text mixtures (what mis-grouped SQL produces)
     '"a" = "s"', '1 = "s"', '"s" != 1', '("a" = "s") LIKE "u"', '"f" LIKE "u"', '"a" LIKE "u"', "1 = \"s\" LIKE '%a%'",
     "\"s\" LIKE '%a%' = 1", '"a" * "b" LIKE "u"',
@@ -82,6 +86,9 @@ ODATA_TERMS = (
      ("cmp", "ne", _s, ("null",)), ("cmp", "eq", ("null",), _f), ("in", _a, [_b, ("int", 1)]), ("in", _s, [("str", "a"), _u]),
      ("and", _f, ("cmp", "eq", _a, ("int", 1))), ("or", _f, ("cmp", "eq", _a, ("int", 1))), ("not", _f),
      ("not", ("or", ("cmp", "lt", _a, ("int", 1)), _f))] +
+    [("call", fn, [("arith", "div", _a, ("float", "2.0"))]) for fn in ("round", "floor", "ceiling")] +
+    [("call", "round", [("arith", "mul", _a, ("float", "0.25"))]), ("cmp", "gt", ("arith", "div", _a, ("float", "2e0")), ("int", 2)),
+     ("cmp", "eq", ("call", "round", [("arith", "sub", ("arith", "div", _a, ("float", "2.0")), ("float", "0.5"))]), _b)] +
     [("call", fn, [_s, _u]) for fn in ("contains", "startswith", "endswith", "indexof", "concat")] +
     [("call", fn, [_s]) for fn in ("length", "tolower", "toupper", "trim")] +
     [("call", "substring", [_s, _a]), ("call", "substring", [_s, _a, _b]),
@@ -359,6 +366,10 @@ REL_WHERE = [
     'EXISTS (SELECT 1 FROM "child" U0 LEFT OUTER JOIN "parent" U1 ON (U0."pid" = U1."id") WHERE U1."n" IS NULL AND U0."k" = "parent"."n")',
     'EXISTS (SELECT 1 FROM "child" U0 INNER JOIN "parent" U1 ON (U0."pid" = U1."id") WHERE U1."id" = "parent"."id" AND U0."label" LIKE "parent"."name" || \'%\')',
     '"parent"."n" = 1 OR NOT EXISTS (SELECT 1 FROM "child" c WHERE c."pid" = "parent"."id")',
+    '"parent"."id" IN (SELECT U0."pid" FROM "child" U0 WHERE U0."k" > 1)',
+    'NOT ("parent"."id" IN (SELECT U0."pid" FROM "child" U0 WHERE U0."k" > 1))',
+    '"parent"."id" NOT IN (SELECT U0."pid" FROM "child" U0)',
+    '"parent"."n" IN (SELECT U0."k" FROM "child" U0 INNER JOIN "parent" U1 ON (U0."pid" = U1."id") WHERE U1."n" IS NOT NULL)',
 ]
 
 
